@@ -73,6 +73,29 @@ def run(tier):
         suite.proportional('circuit2zx[%s].denotes' % name, mat_list(zx_matrix(d)), mat_list(M), angle=phi,
                            functions=['quantum.zx.circuit2zx', 'rigid.Functor.__call__'],
                            what='the ZX image of a circuit denotes its evaluation up to a non-zero scalar')
+    # "for every phase": gates of one kind whose phases differ little (or are large) in one translation run; each gets the
+    # diagram of ITS phase.  Numeric comparison up to a non-zero factor.
+    import numpy
+
+    def numeric(m):
+        return numpy.array([[complex(sympy.N(e)) for e in row] for row in mat_list(m)], dtype=complex)
+
+    def proportional_num(A, B, tol=1e-9):
+        a, b = A.flatten(), B.flatten()
+        k = int(numpy.argmax(abs(b)))
+        return abs(b[k]) > tol and abs(a[k]) > tol and numpy.allclose(a * b[k], b * a[k], atol=tol * max(1.0, abs(a[k]) * abs(b[k])))
+    for cls, Sm in ((Rz, S.Rz), (Rx, S.Rx), (CRz, S.CRz), (CU1, S.CU1)):
+        for p1, p2 in ((0.1234, 0.1232), (-0.5001, -0.5004), (12.31, 12.34), (1000.25, 1000.5), (0.3, 0.30004)):
+            nm = '%s(%r) then %s(%r)' % (cls.__name__, p1, cls.__name__, p2)
+            with suite.guard('close phases ' + nm, fz):
+                d1, d2 = zx.circuit2zx(cls(p1)), zx.circuit2zx(cls(p2))
+                both = zx.circuit2zx(cls(p1) >> cls(p2))
+                ok = proportional_num(numeric(zx_matrix(d1)), numeric(Sm(p1))) \
+                    and proportional_num(numeric(zx_matrix(d2)), numeric(Sm(p2))) \
+                    and proportional_num(numeric(zx_matrix(both)), numeric(Sm(p2) * Sm(p1)))
+                suite.fact('close phases[%s].denotes' % nm, bool(ok), functions=['quantum.zx.circuit2zx'] + fz,
+                           what='two %s gates with phases %r and %r translated in one run each denote their own matrix, alone '
+                                'and composed' % (cls.__name__, p1, p2))
     # daggers of ZX generators and diagrams
     legs = range(0, 3) if tier == 'quick' else range(0, 4)
     for cls in (zx.Z, zx.X):
